@@ -1308,6 +1308,11 @@ namespace cds { namespace intrusive {
                 pos.pSucc[nLevel] = pCur.ptr();
             }
 
+            // pCur == nullptr at level 0 means that pPred is the last node. If pPred is not the head
+            // (the last item has been removed concurrently) the list is not empty
+            if ( pCur.ptr() == nullptr && pPred != m_Head.head())
+                goto retry;
+
             return ( pos.pCur = pCur.ptr()) != nullptr;
         }
 
@@ -1559,7 +1564,9 @@ namespace cds { namespace intrusive {
                             pCur = guards.protect( 1, pCur->next( nLevel ), gc_protect );
                         }
                         else if ( nCmp == 0 ) {
-                            // found
+                            // found; if the node is logically deleted the slow path decides
+                            if ( pCur->next( 0 ).load( memory_model::memory_order_acquire ).bits())
+                                return find_fastpath_abort;
                             f( *node_traits::to_value_ptr( pCur.ptr()), val );
                             return find_fastpath_found;
                         }
